@@ -18,6 +18,8 @@ type MCRegion struct {
 	Prot   string // rw | ro | none
 	// HeldSecret is set once the region content was observed (or must be assumed) non-zero.
 	EverNonZero bool
+	// Adopted: the region was allocated elsewhere and registered when first seen
+	Adopted bool
 }
 
 // MCEvent is one memcall call.
@@ -44,6 +46,11 @@ type Memcall struct {
 	// AdoptUnknown registers regions that were allocated elsewhere (memguard allocates inside its own library)
 	// the first time they are seen instead of reporting them.
 	AdoptUnknown bool
+	// LenientFree makes Free of an adopted region succeed when the real munmap refuses it (memguard's inner pages
+	// are part of a larger mapping with guard pages; whether a partial release is accepted differs between set-ups).
+	// The shadow then treats the region as released. Used to drive the clean-up paths that only run when the
+	// release succeeds.
+	LenientFree bool
 	// Problems collects protocol violations seen by the monitor itself.
 	Problems []string
 }
@@ -86,7 +93,7 @@ func (m *Memcall) lookup(op string, b []byte) *MCRegion {
 	}
 	if m.AdoptUnknown {
 		m.gen++
-		r := &MCRegion{Base: p, Len: len(b), Gen: m.gen, Mapped: true, Locked: true, Prot: "rw"}
+		r := &MCRegion{Base: p, Len: len(b), Gen: m.gen, Mapped: true, Locked: true, Prot: "rw", Adopted: true}
 		m.regions[p] = r
 		return r
 	}
@@ -212,8 +219,11 @@ func (m *Memcall) Free(b []byte) error {
 		// munmap works on any protection; keep the shadow consistent
 	}
 	if err := memcall.Free(b); err != nil {
-		ev.Err = err.Error()
-		return err
+		if !(m.LenientFree && r.Adopted) {
+			ev.Err = err.Error()
+			return err
+		}
+		ev.Note += "; real munmap refused (" + err.Error() + "), treated as released (lenient)"
 	}
 	r.Mapped, r.Locked = false, false
 	delete(m.regions, r.Base)
